@@ -9,7 +9,8 @@ package main
 //	branch     Br / BrIf / BrTable targets, fall-through            (stack unchanged)
 //	tail       TailCallReturnCall[Indirect] -> (callee, 0)          (frame replaced: stack unchanged)
 //	descend    Call / CallIndirect -> (callee, 0)                   (stack grows by one frame)
-//	resume     Call / CallIndirect -> pc+1, only if some callee can return without passing a check
+//	resume     Call / CallIndirect -> pc+1 if some callee can return; the edge is "check-free" only if
+//	           some callee can return without passing a check
 //
 // A run that never ends must either repeat a node with a bounded stack - a cycle made of branch, tail
 // and resume edges - or grow the stack without bound, which the call-stack ceiling ends. The property
@@ -203,14 +204,16 @@ func constSlot(ops []interpreter.VerifOp, pc int) int64 {
 }
 
 type sEdge struct {
-	to   sNode
-	kind string // "branch" | "tail" | "descend" | "resume"
-	ret  bool   // the edge leaves the function (return)
+	to      sNode
+	kind    string // "branch" | "tail" | "descend" | "resume"
+	ret     bool   // the edge leaves the function (return)
+	checked bool   // resume edge whose callees all pass a check before returning
 }
 
 type sGraph struct {
 	p          *sProg
-	mayRetFree map[fref]bool // the function can return to its caller without passing a check
+	mayRet     map[fref]bool // the function can return to its caller
+	mayRetFree map[fref]bool // ... without passing a check
 }
 
 func (g *sGraph) body(f fref) []interpreter.VerifOp { return g.p.mods[f.mod].funcs[f.fidx] }
@@ -230,22 +233,25 @@ func (g *sGraph) succ(n sNode) (out []sEdge) {
 		}
 	}
 	call := func(targets []fref, resumeAt uint64) {
-		resume := false
+		resume, free := false, false
 		for _, t := range targets {
 			if t.mod < 0 {
-				resume = true
+				resume, free = true, true
 				continue
 			}
 			out = append(out, sEdge{to: sNode{t, 0}, kind: "descend"})
-			if g.mayRetFree[t] {
+			if g.mayRet[t] {
 				resume = true
+			}
+			if g.mayRetFree[t] {
+				free = true
 			}
 		}
 		if resume {
 			if resumeAt == interpreter.VerifReturnTarget || resumeAt >= uint64(len(ops)) {
-				out = append(out, sEdge{ret: true, kind: "resume"})
+				out = append(out, sEdge{ret: true, kind: "resume", checked: !free})
 			} else {
-				out = append(out, sEdge{to: sNode{n.f, int(resumeAt)}, kind: "resume"})
+				out = append(out, sEdge{to: sNode{n.f, int(resumeAt)}, kind: "resume", checked: !free})
 			}
 		}
 	}
@@ -289,46 +295,55 @@ func (g *sGraph) isCheck(n sNode) bool {
 	return n.pc < len(ops) && kindOf(ops[n.pc].Kind) == "BuiltinFunctionCheckExitCode"
 }
 
-// computeMayRetFree: least fixpoint of "can return to the caller on a path without a check".
-func (g *sGraph) computeMayRetFree(all []fref) {
+// computeReturns: least fixpoints of "can return to the caller" (mayRet) and "can return to the
+// caller on a path without a check" (mayRetFree).
+func (g *sGraph) computeReturns(all []fref) {
+	g.mayRet = map[fref]bool{}
 	g.mayRetFree = map[fref]bool{}
-	for changed := true; changed; {
-		changed = false
-		for _, f := range all {
-			if g.mayRetFree[f] {
-				continue
-			}
-			seen := map[int]bool{}
-			stack := []int{0}
-			free := false
-			for len(stack) > 0 && !free {
-				pc := stack[len(stack)-1]
-				stack = stack[:len(stack)-1]
-				if seen[pc] {
+	for _, free := range []bool{false, true} {
+		set := g.mayRet
+		if free {
+			set = g.mayRetFree
+		}
+		for changed := true; changed; {
+			changed = false
+			for _, f := range all {
+				if set[f] {
 					continue
 				}
-				seen[pc] = true
-				n := sNode{f, pc}
-				if g.isCheck(n) {
-					continue
-				}
-				for _, e := range g.succ(n) {
-					switch {
-					case e.kind == "descend":
-					case e.ret:
-						free = true
-					case e.kind == "tail":
-						if g.mayRetFree[e.to.f] {
-							free = true
+				seen := map[int]bool{}
+				stack := []int{0}
+				found := false
+				for len(stack) > 0 && !found {
+					pc := stack[len(stack)-1]
+					stack = stack[:len(stack)-1]
+					if seen[pc] {
+						continue
+					}
+					seen[pc] = true
+					n := sNode{f, pc}
+					if free && g.isCheck(n) {
+						continue
+					}
+					for _, e := range g.succ(n) {
+						switch {
+						case e.kind == "descend":
+						case free && e.checked:
+						case e.ret:
+							found = true
+						case e.kind == "tail":
+							if set[e.to.f] {
+								found = true
+							}
+						default:
+							stack = append(stack, e.to.pc)
 						}
-					default:
-						stack = append(stack, e.to.pc)
 					}
 				}
-			}
-			if free {
-				g.mayRetFree[f] = true
-				changed = true
+				if found {
+					set[f] = true
+					changed = true
+				}
 			}
 		}
 	}
@@ -355,7 +370,7 @@ func analyse(p *sProg, entry fref) sResult {
 			all = append(all, fref{mi, uint32(fi)})
 		}
 	}
-	g.computeMayRetFree(all)
+	g.computeReturns(all)
 
 	// reachability over all edge kinds
 	var res sResult
@@ -382,7 +397,7 @@ func analyse(p *sProg, entry fref) sResult {
 			t := walk(e.to)
 			res.Edges++
 			adjAll[k] = append(adjAll[k], t)
-			if e.kind != "descend" {
+			if e.kind != "descend" && !e.checked {
 				adjBounded[k] = append(adjBounded[k], t)
 			}
 		}
